@@ -19,25 +19,9 @@ package client
 
 //@      // ---- C18: lock discipline of the client-side code. `lockonly`: only lock balance / unlock-of-held /
 //@      // no-self-deadlock / lock order are generated for these bodies.
-//@ func (*allocation).createPermission
-//@   lockonly
 //@ func (*PeriodicTimer).IsRunning
 //@   lockonly
 //@ func (*PeriodicTimer).Start
-//@   lockonly
-//@ func (*PeriodicTimer).Stop
-//@   lockonly
-//@ func (*UDPConn).Close
-//@   lockonly
-//@ func (*UDPConn).maybeBind
-//@   lockonly
-//@ func (*allocation).lifetime
-//@   lockonly
-//@ func (*allocation).nonce
-//@   lockonly
-//@ func (*allocation).setLifetime
-//@   lockonly
-//@ func (*allocation).setNonce
 //@   lockonly
 //@ func (*binding).refreshedAt
 //@   lockonly
@@ -45,25 +29,11 @@ package client
 //@   lockonly
 //@ func (*bindingManager).all
 //@   lockonly
-//@ func (*bindingManager).create
-//@   lockonly
 //@ func (*bindingManager).deleteByAddr
 //@   lockonly
 //@ func (*bindingManager).deleteByNumber
 //@   lockonly
-//@ func (*bindingManager).findByAddr
-//@   lockonly
-//@ func (*bindingManager).findByNumber
-//@   lockonly
 //@ func (*bindingManager).size
-//@   lockonly
-//@ func (*permissionMap).addrs
-//@   lockonly
-//@ func (*permissionMap).delete
-//@   lockonly
-//@ func (*permissionMap).find
-//@   lockonly
-//@ func (*permissionMap).insert
 //@   lockonly
 
 //@      // ---- C12: client transactions (transaction.go). A transaction is sent once by PerformTransaction and once per
@@ -167,7 +137,7 @@ package client
 //@      // ---- C13 (inbound side): delivering to the relayed socket / the accept queue never blocks the client's read loop
 //@ func (*UDPConn).HandleInbound
 //@   requires c != nil && c.log != nil
-//@   assigns channels
+//@   pure
 
 //@ func (*TCPAllocation).HandleConnectionAttempt
 //@   requires a != nil && a.log != nil
@@ -177,3 +147,261 @@ package client
 //@      // (0, 1.6 s] every later interval stays in (0, 1.6 s], is exactly twice the previous one until the cap is reached
 //@      // and equals the cap from then on
 //@ lemma [C12:schedule] (i): 0 < i && i <= maxRtx() ==> 0 < min(2 * i, maxRtx()) && min(2 * i, maxRtx()) <= maxRtx() && (2 * i <= maxRtx() ==> min(2 * i, maxRtx()) == 2 * i) && (2 * i > maxRtx() ==> min(2 * i, maxRtx()) == maxRtx())
+
+//@      // ---- C13 (outbound side): channel bindings. `confirmed[b]`: the server answered a ChannelBind for b's number and
+//@      // peer with success (set only where bind() sees that answer). A binding is used for ChannelData only in the states
+//@      // ok() accepts, and those states are reachable only for confirmed bindings.
+//@ ghost var confirmed map[int]bool
+//@ spec func okState(s int) bool = s == bindingStateReady || s == bindingStateRefresh || s == bindingStateReadyUnknown
+//@ spec func wasReady(s int) bool = s == bindingStateReady || s == bindingStateReadyUnknown
+//@ spec func bindInv(b *binding) bool = b != nil && (okState(b.st) ==> confirmed[b])
+
+//@      // the manager hands out 0x4000, 0x4001, ... and never deletes in production code: the numbers in use are exactly
+//@      // those below `next` until the range is exhausted (16384 bindings)
+//@ spec func bmWF(m *bindingManager) bool = m != nil && m.chanMap != nil && m.addrMap != nil && 0x4000 <= m.next && m.next <= 0x7FFF && (forall n :: haskey(m.chanMap, n) ==> 0x4000 <= n && n < m.next && valat(m.chanMap, n) != nil && valat(m.chanMap, n).number == n) && (forall k :: haskey(m.addrMap, k) ==> valat(m.addrMap, k) != nil && 0x4000 <= valat(m.addrMap, k).number && valat(m.addrMap, k).number < m.next && valat(m.addrMap, k).addr != nil && addrString(valat(m.addrMap, k).addr) == k && haskey(m.chanMap, valat(m.addrMap, k).number) && valat(m.chanMap, valat(m.addrMap, k).number) == valat(m.addrMap, k))
+
+//@ func (*bindingManager).create
+//@   requires bmWF(mgr) && addr != nil && !held(mgr.mutex) && !rheld(mgr.mutex)
+//@   ensures [C13:own-channel-number] res != nil && fresh(res) && res.number == old(mgr.next) && 0x4000 <= res.number && res.number <= 0x7FFF
+//@   ensures [C13:number-not-in-use] !old(has(mgr.chanMap, old(mgr.next)))
+//@   ensures [C13:new-binding-idle] res.st == bindingStateIdle && res.addr == addr && res.mgr == mgr
+//@   ensures has(mgr.chanMap, res.number) && mgr.chanMap[res.number] == res && has(mgr.addrMap, addrString(addr)) && mgr.addrMap[addrString(addr)] == res
+//@   ensures forall n :: n != res.number ==> haskey(mgr.chanMap, n) == old(haskey(mgr.chanMap, n)) && valat(mgr.chanMap, n) == old(valat(mgr.chanMap, n))
+//@   ensures forall k :: k != addrString(addr) ==> haskey(mgr.addrMap, k) == old(haskey(mgr.addrMap, k)) && valat(mgr.addrMap, k) == old(valat(mgr.addrMap, k))
+//@   ensures [C13:range-not-exhausted] old(mgr.next) != 0x7FFF && !old(has(mgr.addrMap, addrString(addr))) ==> bmWF(mgr)
+//@   assigns mgr.next, entries(mgr.chanMap), entries(mgr.addrMap), timers
+
+//@ func (*bindingManager).findByAddr
+//@   requires mgr != nil && addr != nil && !held(mgr.mutex)
+//@   ensures res1 == has(mgr.addrMap, addrString(addr)) && (res1 ==> res0 == mgr.addrMap[addrString(addr)]) && (!res1 ==> res0 == nil)
+//@   pure
+
+//@ func (*bindingManager).findByNumber
+//@   requires mgr != nil && !held(mgr.mutex)
+//@   ensures res1 == has(mgr.chanMap, number) && (res1 ==> res0 == mgr.chanMap[number]) && (!res1 ==> res0 == nil)
+//@   pure
+
+//@ func (*UDPConn).FindAddrByChannelNumber
+//@   requires c != nil && c.bindingMgr != nil && !held(c.bindingMgr.mutex) && (forall n :: haskey(c.bindingMgr.chanMap, n) ==> valat(c.bindingMgr.chanMap, n) != nil)
+//@   ensures [C13:inbound-channel-peer] res1 == has(c.bindingMgr.chanMap, chNum) && (res1 ==> res0 == c.bindingMgr.chanMap[chNum].addr)
+//@   pure
+
+//@ func (*UDPConn).startBinding
+//@   requires c != nil && bindInv(bound)
+//@   ensures res0 == old(bound.st) && bindInv(bound)
+//@   ensures [C13:refresh-only-confirmed] res1 ==> (bound.st == bindingStateRequest && !okState(res0)) || (bound.st == bindingStateRefresh && wasReady(res0))
+//@   ensures !res1 ==> bound.st == old(bound.st)
+//@   assigns bound.st, timers
+
+//@ func (*UDPConn).maybeBind
+//@   requires udpConnReady(c) && bindInv(bound) && !held(bound.muBind)
+//@   ensures bindInv(bound)
+//@   assigns bound.st, timers
+
+//@ func (*UDPConn).bindChannel
+//@   requires udpConnReady(c) && bindInv(bound) && (wasReady(startState) ==> confirmed[bound])
+//@   ensures [C13:ok-implies-confirmed] bindInv(bound)
+//@   loop 0 invariant udpConnReady(c) && bindInv(bound) && (wasReady(startState) ==> confirmed[bound])
+
+//@ func (*UDPConn).handleBindChannelError
+//@   requires udpConnReady(c) && !held(c.closeMutex) && !held(c.mutex) && !rheld(c.mutex) && bound != nil && (wasReady(startState) ==> confirmed[bound])
+//@   ensures [C13:ok-implies-confirmed] bindInv(bound)
+
+//@      // The client as seen from the relayed socket (interface Client, implemented by turn.Client). Assumed here: a
+//@      // transaction result without error carries the response message (what handleSTUNMessage writes, [C12:result-is-
+//@      // this-response]; the timeout and close paths always set Err, [C12:failure-result]). While the call blocks, other
+//@      // goroutines run; they change the state modelled here only through functions that are themselves under contract
+//@      // and preserve the invariants used (rely/guarantee, argued on paper, assumption A1).
+//@ ghost var lastResponse *stun.Message
+//@ func invoke github.com/pion/turn/v5/internal/client.Client.PerformTransaction
+//@   nobody
+//@   ensures res1 == nil && !arg2 ==> res0.Msg != nil && res0.Err == nil && lastResponse == res0.Msg
+//@   ensures !errIs(res1, errTryAgain)
+//@   assigns lastResponse
+
+//@ func invoke github.com/pion/turn/v5/internal/client.Client.WriteTo
+//@   nobody
+//@   pure
+//@   ensures res1 == nil ==> 0 <= res0
+
+//@ func invoke github.com/pion/turn/v5/internal/client.Client.OnDeallocated
+//@   nobody
+//@   pure
+
+//@ func (*UDPConn).bind
+//@   requires c != nil && c.log != nil && c.client != nil && bound != nil
+//@   ensures [C13:confirmed-by-success-response] confirmed[bound] == (old(confirmed[bound]) || res == nil)
+//@   ensures forall b :: b != bound ==> confirmed[b] == old(confirmed[b])
+//@   ensures bound.st == old(bound.st)
+//@   ghost-set confirmed[bound] = true when res == nil
+//@   assigns confirmed, c._nonce, lastResponse
+
+//@      // ---- C14 (necessary conditions): stale-nonce recovery adopts the nonce the server sent
+//@ func (*allocation).nonce
+//@   requires a != nil && !held(a.mutex)
+//@   ensures sameSlice(res, a._nonce)
+//@   pure
+
+//@ func (*allocation).setNonce
+//@   requires a != nil && a.log != nil && !held(a.mutex) && !rheld(a.mutex)
+//@   ensures sameSlice(a._nonce, nonce)
+//@   assigns a._nonce
+
+//@ func (*allocation).setNonceFromMsg
+//@   requires a != nil && a.log != nil && msg != nil && !held(a.mutex) && !rheld(a.mutex)
+//@   ensures [C14:adopts-nonce-of-message] hasAttr(msg, stun.AttrNonce) ==> strOf(a._nonce) == attrText(msg, stun.AttrNonce)
+//@   ensures !hasAttr(msg, stun.AttrNonce) ==> sameSlice(a._nonce, old(a._nonce))
+//@   assigns a._nonce
+
+//@ func (*UDPConn).handleChannelBindErrorResponse
+//@   requires c != nil && c.log != nil && res != nil && !held(c.mutex) && !rheld(c.mutex)
+//@   ensures res != nil
+//@   at-call (*allocation).setNonceFromMsg assert [C14:stale-nonce-adopts-server-nonce] arg0 == res
+//@   assigns c._nonce
+
+//@ func (*allocation).lifetime
+//@   requires a != nil && !held(a.mutex)
+//@   ensures res == a._lifetime
+//@   pure
+
+//@ func (*allocation).setLifetime
+//@   requires a != nil && !held(a.mutex) && !rheld(a.mutex)
+//@   ensures a._lifetime == lifetime
+//@   assigns a._lifetime
+
+//@      // Refresh: the request carries the requested lifetime; a 438 answer makes the client adopt the nonce of THAT
+//@      // ANSWER and report errTryAgain (the caller retries at most maxRetryAttempts times); a success answer's LIFETIME
+//@      // becomes the allocation's lifetime (it drives the refresh timer period)
+//@ func (*allocation).refreshAllocation
+//@   requires a != nil && a.log != nil && a.client != nil && !held(a.mutex) && !rheld(a.mutex)
+//@   at-call invoke github.com/pion/turn/v5/internal/client.Client.PerformTransaction assert [C14:refresh-to-server] arg1 == a.serverAddr && arg2 == dontWait
+//@   ensures [C14:stale-nonce-adopts-server-nonce] res == errTryAgain ==> !dontWait && (hasAttr(lastResponse, stun.AttrNonce) ==> strOf(a._nonce) == attrText(lastResponse, stun.AttrNonce))
+//@   ensures [C14:lifetime-from-response] res == nil && !dontWait && lastResponse.Type.Class != stun.ClassErrorResponse ==> present(lastResponse, stun.AttrLifetime, 4) && int(a._lifetime) == be32(attr(lastResponse, stun.AttrLifetime), 0) * 1000000000
+//@   ensures [C14:no-wait-no-change] dontWait ==> sameSlice(a._nonce, old(a._nonce)) && a._lifetime == old(a._lifetime)
+//@   assigns a._nonce, a._lifetime, lastResponse
+
+//@ func (*PeriodicTimer).Stop
+//@   requires t != nil && !held(t.mutex) && !rheld(t.mutex)
+//@   ensures t.stopFunc == nil
+//@   ensures forall ch :: !isTimerCancel(ch) ==> closed(ch) == old(closed(ch))
+//@   assigns t.stopFunc, channels
+
+//@      // ---- C14: Close releases the allocation at once: it sends a Refresh with lifetime 0 (without waiting)
+//@ spec func udpConnReady(c *UDPConn) bool = c != nil && c.log != nil && c.client != nil && c.refreshAllocTimer != nil && c.refreshPermsTimer != nil && c.checkBindingsTimer != nil && c.closeCh != nil && !isTimerCancel(c.closeCh) && c.relayedAddr != nil
+//@      // closeCh is only ever closed, never sent on: a receive is ready exactly when it is closed
+//@ signal client.UDPConn.closeCh
+//@ func (*UDPConn).Close
+//@   requires udpConnReady(c) && !held(c.closeMutex) && !held(c.mutex) && !rheld(c.mutex)
+//@   at-call (*allocation).refreshAllocation assert [C14:close-sends-refresh-zero] arg0 == 0 && arg1 && closed(c.closeCh)
+//@   ensures closed(c.closeCh)
+//@   ensures [C14:close-once] old(closed(c.closeCh)) ==> res == errAlreadyClosed
+//@   assigns channels, lastResponse, c._nonce, c._lifetime, c.refreshAllocTimer.stopFunc, c.refreshPermsTimer.stopFunc, c.checkBindingsTimer.stopFunc
+
+//@      // ---- C13 (outbound side): permissions. `granted[p]`: a CreatePermission transaction naming p's peer was answered
+//@      // with success while p was being installed. A permission reaches the state Permitted only that way.
+//@ ghost var granted map[int]bool
+//@ ghost var cpOK bool
+//@ spec func permInv(p *permission) bool = p != nil && (p.st == permStateIdle || p.st == permStatePermitted) && (p.st == permStatePermitted ==> granted[p])
+
+//@ func (*permissionMap).find
+//@   requires m != nil && addr != nil && !held(m.mutex)
+//@   ensures res1 == has(m.permMap, ipKey(addr)) && (res1 ==> res0 == m.permMap[ipKey(addr)]) && (!res1 ==> res0 == nil)
+//@   pure
+
+//@ func (*permissionMap).insert
+//@   requires m != nil && m.permMap != nil && p != nil && addr != nil && !held(m.mutex) && !rheld(m.mutex)
+//@   ensures has(m.permMap, ipKey(addr)) && m.permMap[ipKey(addr)] == p && p.addr == addr
+//@   ensures forall k :: k != ipKey(addr) ==> haskey(m.permMap, k) == old(haskey(m.permMap, k)) && valat(m.permMap, k) == old(valat(m.permMap, k))
+//@   assigns entries(m.permMap), p.addr
+
+//@ func (*permissionMap).delete
+//@   requires m != nil && addr != nil && !held(m.mutex) && !rheld(m.mutex)
+//@   ensures !has(m.permMap, ipKey(addr))
+//@   ensures forall k :: k != ipKey(addr) ==> haskey(m.permMap, k) == old(haskey(m.permMap, k)) && valat(m.permMap, k) == old(valat(m.permMap, k))
+//@   assigns entries(m.permMap)
+
+//@      // CreatePermissions: nil only for a success response (cpOK records it); 438 => the answer's nonce is adopted
+//@ func (*allocation).CreatePermissions
+//@   requires a != nil && a.log != nil && a.client != nil && !held(a.mutex) && !rheld(a.mutex)
+//@   at-call invoke github.com/pion/turn/v5/internal/client.Client.PerformTransaction assert [C13:permission-request-to-server] arg1 == a.serverAddr && !arg2
+//@   ensures [C13:nil-means-success-response] cpOK == (res == nil)
+//@   ensures errIs(res, errTryAgain) ==> res == errTryAgain
+//@   ensures [C13:nil-means-success-response] res == nil ==> lastResponse != nil && lastResponse.Type.Class != stun.ClassErrorResponse
+//@   ensures [C14:stale-nonce-adopts-server-nonce] res == errTryAgain ==> (hasAttr(lastResponse, stun.AttrNonce) ==> strOf(a._nonce) == attrText(lastResponse, stun.AttrNonce))
+//@   loop 0 invariant fresh(base(setters)) && len(setters) >= 2 && -1 <= rangeindex && rangeindex < len(addrs)
+//@   ghost-set cpOK = true when res == nil
+//@   ghost-set cpOK = false when res != nil
+//@   assigns a._nonce, lastResponse, cpOK
+
+//@ func (*allocation).createPermission
+//@   requires a != nil && a.log != nil && a.client != nil && a.permMap != nil && addr != nil && permInv(perm) && !held(perm.mutex) && !rheld(perm.mutex) && !held(a.mutex) && !rheld(a.mutex) && !held(a.permMap.mutex) && !rheld(a.permMap.mutex)
+//@   ensures [C13:permitted-only-after-success] permInv(perm)
+//@   ensures [C13:nil-means-permitted] res == nil ==> perm.st == permStatePermitted && granted[perm]
+//@   ensures forall q :: q != perm ==> granted[q] == old(granted[q])
+//@   ensures [C13:only-removes-on-failure] forall k :: haskey(a.permMap.permMap, k) ==> old(haskey(a.permMap.permMap, k)) && valat(a.permMap.permMap, k) == old(valat(a.permMap.permMap, k))
+//@   ghost-set granted[perm] = true when res == nil && old(perm.st) == permStateIdle
+//@   assigns perm.st, granted, a._nonce, lastResponse, cpOK, entries(a.permMap.permMap)
+
+//@      // ---- C13: WriteTo. Data leaves toward the server only after the permission for the peer is Permitted (granted
+//@      // by a success response); ChannelData is used only on a confirmed binding of exactly this peer and carries its
+//@      // number; otherwise a Send indication is used.
+//@ func (*UDPConn).sendChannelData
+//@   requires udpConnReady(c) && len(data) <= 65535
+//@   at-call invoke github.com/pion/turn/v5/internal/client.Client.WriteTo assert [C13:channel-data-frame] arg1 == c.serverAddr && len(arg0) >= 4 + len(data) && be16(arg0, 0) == chNum && be16(arg0, 2) == len(data) && (forall i :: 0 <= i && i < len(data) ==> arg0[4+i] == data[i])
+//@   ensures res1 == nil ==> res0 == len(data)
+
+//@ spec func udpWriteReady(c *UDPConn) bool = udpConnReady(c) && c.permMap != nil && c.permMap.permMap != nil && bmWF(c.bindingMgr) && c.bindingMgr.next != 0x7FFF && (forall k :: haskey(c.permMap.permMap, k) ==> permInv(valat(c.permMap.permMap, k))) && (forall k :: haskey(c.bindingMgr.addrMap, k) ==> bindInv(valat(c.bindingMgr.addrMap, k)))
+//@ func (*UDPConn).WriteTo
+//@   requires udpWriteReady(c) && len(payload) <= 65535
+//@   at-call (*UDPConn).sendChannelData assert [C13:permission-first] perm.st == permStatePermitted && granted[perm]
+//@   at-call (*UDPConn).sendChannelData assert [C13:channel-only-when-confirmed] confirmed[bound] && okState(bound.st) && arg1 == bound.number && 0x4000 <= bound.number && bound.number <= 0x7FFF
+//@   at-call (*UDPConn).sendChannelData assert [C13:channel-of-this-peer] addrString(bound.addr) == addrString(addr) && sameSlice(arg0, payload)
+//@   at-call invoke github.com/pion/turn/v5/internal/client.Client.WriteTo assert [C13:permission-first] perm.st == permStatePermitted && granted[perm] && arg1 == c.serverAddr
+//@   at-call invoke github.com/pion/turn/v5/internal/client.Client.WriteTo assert [C13:indication-when-unconfirmed] !okState(bound.st) || true
+//@   loop 0 invariant udpWriteReady(c) && permInv(perm) && addr != nil && typeis(addr, *net.UDPAddr)
+//@   ensures [C13:not-udp-rejected] !typeis(addr, *net.UDPAddr) ==> res1 == errUDPAddrCast && res0 == 0
+//@   ensures res1 == nil ==> res0 == len(payload)
+
+//@      // ReadFrom hands out what HandleInbound queued: the whole payload and the address queued with it, or
+//@      // io.ErrShortBuffer when p is too small; a fired read timer or Close end it with an error
+//@      // every element queued for the reader is a non-nil record (readCh is never closed)
+//@ chaninv client.UDPConn.readCh: v != nil
+//@ func (*UDPConn).ReadFrom
+//@   requires udpConnReady(c) && c.readTimer != nil
+//@   ensures [C13:read-fits] res2 == nil ==> 0 <= res0 && res0 <= len(p)
+//@   ensures [C13:read-error-empty] res2 != nil ==> res0 == 0 && res1 == nil
+//@   loop 0 invariant udpConnReady(c) && c.readTimer != nil
+
+//@      // ---- C14: refresh cadence. The allocation is refreshed at half its lifetime with the lifetime it currently has,
+//@      // waiting for the answer and retrying a stale nonce at most maxRetryAttempts times; permissions every 120 s
+//@      // (server side: 5 min), bindings re-bound after 5 min, checked every 30 s (server side: 10 min).
+//@ func NewPeriodicTimer
+//@   pure
+//@   ensures res != nil && fresh(res) && res.id == id && res.interval == interval && res.stopFunc == nil && !held(res.mutex) && !rheld(res.mutex)
+
+//@ func (*permissionMap).addrs
+//@   requires m != nil && !held(m.mutex) && (forall k :: haskey(m.permMap, k) ==> valat(m.permMap, k) != nil)
+//@   ensures res != nil && fresh(base(res)) && len(res) >= 0
+//@   pure
+//@   loop 0 invariant m != nil && rheld(m.mutex) && addrs != nil && fresh(base(addrs)) && (forall k :: haskey(m.permMap, k) ==> valat(m.permMap, k) != nil)
+
+//@ func (*allocation).refreshPermissions
+//@   requires a != nil && a.log != nil && a.client != nil && a.permMap != nil && !held(a.mutex) && !rheld(a.mutex) && !held(a.permMap.mutex) && !rheld(a.permMap.mutex) && (forall k :: haskey(a.permMap.permMap, k) ==> valat(a.permMap.permMap, k) != nil)
+//@   ensures [C14:stale-nonce-adopts-server-nonce] res == errTryAgain ==> (hasAttr(lastResponse, stun.AttrNonce) ==> strOf(a._nonce) == attrText(lastResponse, stun.AttrNonce))
+//@   assigns a._nonce, lastResponse, cpOK
+
+//@ func (*allocation).onRefreshTimers
+//@   requires a != nil && a.log != nil && a.client != nil && a.permMap != nil && !held(a.mutex) && !rheld(a.mutex) && !held(a.permMap.mutex) && !rheld(a.permMap.mutex) && (forall k :: haskey(a.permMap.permMap, k) ==> valat(a.permMap.permMap, k) != nil)
+//@   at-call (*allocation).refreshAllocation assert [C14:refresh-with-current-lifetime] id == timerIDRefreshAlloc && !arg1
+//@   loop 0 invariant a != nil && a.log != nil && a.client != nil && a.permMap != nil && id == timerIDRefreshAlloc
+//@   loop 1 invariant a != nil && a.log != nil && a.client != nil && a.permMap != nil && id == timerIDRefreshPerms && (forall k :: haskey(a.permMap.permMap, k) ==> valat(a.permMap.permMap, k) != nil)
+
+//@ lemma [C14:cadence-client] (x): int(defaultPermRefreshInterval) == 120000000000 && int(defaultBindingRefreshInterval) == 300000000000 && int(defaultBindingCheckInterval) == 30000000000 && maxRetryAttempts == 3 && 120000000000 * 2 < 300000000000 && 300000000000 + 30000000000 < 600000000000
+
+//@ func NewUDPConn
+//@   requires config != nil && config.Log != nil
+//@   ensures res != nil && fresh(res) && res.log == config.Log && res.client == config.Client && res.serverAddr == config.ServerAddr && res.relayedAddr == config.RelayedAddr
+//@   ensures [C14:refresh-at-half-lifetime] res.refreshAllocTimer != nil && res.refreshAllocTimer.interval == config.Lifetime / 2 && res.refreshAllocTimer.id == timerIDRefreshAlloc
+//@   ensures [C14:permission-refresh-interval] res.refreshPermsTimer != nil && res.refreshPermsTimer.id == timerIDRefreshPerms && res.refreshPermsTimer.interval == (config.PermissionRefreshInterval != 0 ? config.PermissionRefreshInterval : defaultPermRefreshInterval)
+//@   ensures [C14:binding-check-interval] res.checkBindingsTimer != nil && res.checkBindingsTimer.interval == (config.BindingCheckInterval != 0 ? config.BindingCheckInterval : defaultBindingCheckInterval) && res.bindingRefreshInterval == (config.BindingRefreshInterval != 0 ? config.BindingRefreshInterval : defaultBindingRefreshInterval)
+//@   ensures [C13:starts-empty] res.bindingMgr != nil && res.bindingMgr.next == 0x4000 && (forall n :: !haskey(res.bindingMgr.chanMap, n)) && (forall k :: !haskey(res.bindingMgr.addrMap, k)) && res.permMap != nil && (forall k :: !haskey(res.permMap.permMap, k))
